@@ -324,7 +324,7 @@ func c12line(c *an.Ctx, eval, parse map[*an.Fn]bool) {
 			return true
 		})
 		n := 0
-		for _, f := range p.Fns {
+		for _, f := range p.Units() {
 			if f.Pkg != p.Jet || f.Body == nil {
 				continue
 			}
@@ -376,7 +376,7 @@ func c12line(c *an.Ctx, eval, parse map[*an.Fn]bool) {
 	}
 	var ctors []ctor
 	exprLo, exprHi := constInt(p, "beginExpressions"), constInt(p, "endExpressions")
-	for _, f := range p.Fns {
+	for _, f := range p.Units() {
 		if f.Pkg != p.Jet || f.Body == nil || !parse[f] {
 			continue
 		}
@@ -492,7 +492,7 @@ func c12early(c *an.Ctx, parse map[*an.Fn]bool) {
 	info := p.Jet.TypesInfo
 	// constructors with a line parameter
 	lineParam := map[*types.Func]int{}
-	for _, f := range p.Fns {
+	for _, f := range p.Units() {
 		if f.Pkg != p.Jet || f.Obj == nil || f.Sig == nil || !strings.HasPrefix(f.Obj.Name(), "new") {
 			continue
 		}
